@@ -15,7 +15,8 @@ EXPLANATION = (
     "enable/disable append to if_selections, check_ip_changes ends with apply_intf_selections on the fresh list; "
     "(f) automatic addressing: insert_ipaddr / remove_ipaddr only under is_addr_auto().  Decides these mechanisms, not "
     "behaviour over topologies and event sequences."
-    " (g) Inside the arm taken for one IP family no accessor of the other family is consulted. (h) remove_records_on_intf reports an instance removed iff no remaining PTR names it (polarity of the search).")
+    " (g) Inside the arm taken for one IP family no accessor of the other family is consulted. (h) remove_records_on_intf reports an instance removed iff no remaining PTR names it (polarity of the search)."
+    " (i) In add_interface every addr_auto service gets the new address: only is_addr_auto() == false skips insert_ipaddr.")
 UNDECIDED = ["behaviour over topologies and event sequences (moving addresses, flapping interfaces)"]
 
 
